@@ -354,3 +354,52 @@ def sibling_verdict(rep, rule, key, where, diff, bad_msg, ok_detail, small=2):
         rep.bad(rule, key, where, bad_msg)
     else:
         rep.unknown(rule, key, where, "one copy was restructured (%d / %d differing lines): the statement shapes cannot be lined up, nothing decided" % (len(minus), len(plus)))
+
+
+def always_exits(body):
+    return bool(body) and isinstance(body[-1], (ast.Continue, ast.Break, ast.Return, ast.Raise))
+
+
+def atomise(test, pol):
+    """split a guard into atomic (test, polarity) facts: not X | A and B (taken) | A or B (not taken)"""
+    if isinstance(test, ast.UnaryOp) and isinstance(test.op, ast.Not):
+        return atomise(test.operand, not pol)
+    if isinstance(test, ast.BoolOp) and ((isinstance(test.op, ast.And) and pol) or (isinstance(test.op, ast.Or) and not pol)):
+        out = []
+        for v in test.values:
+            out.extend(atomise(v, pol))
+        return out
+    return [(test, pol)]
+
+
+def guard_chain(pm, node, stop):
+    """[(test_node, polarity)] of the conditions under which ``node`` runs inside ``stop``: the enclosing if-statements and the guard
+    clauses before it (`if T: ...; continue/break/return` with no else leaves `not T` for the rest of the block), split into
+    atomic facts, outermost first.  Both styles of writing the same traversal give the same chain."""
+    chain = []
+    cur = node
+    while cur is not stop and cur in pm:
+        par = pm[cur]
+        here = []
+        for fld in ("body", "orelse"):
+            blk = getattr(par, fld, None)
+            if isinstance(blk, list) and cur in blk:
+                for prev in blk[:blk.index(cur)]:
+                    if isinstance(prev, ast.If) and not prev.orelse and always_exits(prev.body):
+                        here.extend(atomise(prev.test, False))
+                    elif isinstance(prev, ast.If) and prev.orelse and always_exits(prev.orelse) and not always_exits(prev.body):
+                        here.extend(atomise(prev.test, True))
+        if isinstance(par, ast.If):
+            if cur in par.body:
+                chain.append(atomise(par.test, True) + here)
+            elif cur in par.orelse:
+                chain.append(atomise(par.test, False) + here)
+            else:
+                chain.append(here)
+        else:
+            chain.append(here)
+        cur = par
+    chain.reverse()
+    return [x for grp in chain for x in grp]
+
+
